@@ -133,6 +133,26 @@ class Tree:
                 if self.alpha is None:
                     raise AnchorMissing("%s: as_binary() outside a bound-alpha branch" % self.fn)
                 return self.alpha
+            if nm in ("map_or", "map_or_else", "is_some_and", "is_none_or", "map", "and_then") and True:
+                v = self.value(r)
+                if isinstance(v, tuple) and v[0] == "optmod":
+                    cl = [hirq.strip(a) for a in e["args"] if hirq.strip(a).get("e") == "closure"]
+                    if self.signs[v[1]] is None:
+                        if nm in ("map_or",):
+                            return self.value(e["args"][0])
+                        if nm == "is_some_and":
+                            return False
+                        if nm == "is_none_or":
+                            return True
+                        raise AnchorMissing("%s: .%s() on an absent modifier (line %s)" % (self.fn, nm, e.get("ln")))
+                    if cl and cl[-1].get("params"):
+                        self.matches(cl[-1]["params"][0], ("mod", v[1]))
+                        return self.value(cl[-1]["body"])
+            if nm in ("unwrap_or", "unwrap_or_default") and True:
+                v = self.value(r)
+                if v is None:
+                    return self.value(e["args"][0]) if e["args"] else False
+                return v
             if nm in ("as_bin_mod", "unwrap", "expect", "clone"):
                 v = self.value(r)
                 if isinstance(v, tuple) and v[0] == "mod":
@@ -141,6 +161,10 @@ class Tree:
             raise AnchorMissing("%s: cannot evaluate call .%s() (line %s)" % (self.fn, nm, e.get("ln")))
         if k == "tup":
             return tuple(self.value(x) for x in e["items"])
+        if k == "call":
+            f = hirq.strip(e["f"]).get("path") or ""
+            if (f.endswith("Result::Ok") or f.endswith("Option::Some")) and len(e["args"]) == 1:
+                return self.value(e["args"][0])
         if k == "index":
             base = hirq.strip(e["a"])
             i = hirq.strip(e["i"])
@@ -236,6 +260,10 @@ class Tree:
                 # `if let Some(alph) = self.alphas.borrow().get(..)`: bound (alpha given) or not
                 elif any(m["e"] == "mcall" and m["name"] == "get" for m in hirq.walk(init)):
                     taken = self.alpha is not None
+                    if taken:
+                        for q in hirq.walk_pats(c["pat"]):
+                            if q.get("p") == "bind":
+                                self.env[q["name"]] = ("alpha",)
                 else:
                     raise AnchorMissing("%s: `if let` over %s (line %s)" % (self.fn, init.get("e"), e.get("ln")))
                 if taken:
@@ -252,8 +280,17 @@ class Tree:
             if str(e.get("src", "")).startswith("TryDesugar"):
                 return self.run(untry(e))
             sc = untry(e["scrut"])
-            if sc.get("e") == "field" and sc.get("name") in ("length", "stress") and "; 2]" in (e.get("sty") or ""):
+            if "Option<asca::parser::ModKind>; 2]" in (e.get("sty") or ""):
                 v = ("array",)
+            elif self._is_alpha_lookup(sc):
+                # `match self.alphas.borrow().get(ch) { Some(alph) => .., None => .. }`: bound or not
+                for arm in e["arms"]:
+                    ps = hirq.flat_pats(arm["pat"])
+                    some = any((p.get("path") or "").endswith("Option::Some") for p in ps)
+                    none = any((p.get("path") or "").endswith("Option::None") for p in ps) or any(p.get("p") == "wild" for p in ps)
+                    if (self.alpha is not None and some) or (self.alpha is None and none and not some):
+                        return self.run(arm["body"])
+                raise AnchorMissing("%s: alpha lookup match at line %s has no fitting arm" % (self.fn, e.get("ln")))
             else:
                 v = self.value(sc)
             for arm in e["arms"]:
@@ -309,7 +346,17 @@ class Tree:
             return None
         if k in ("lit", "path", "tup"):
             return self._final(e)
+        if k in ("binary", "unary"):
+            v = self.value(e)
+            if v is False:
+                raise Reject()
+            self.result = v
+            return None
         return None
+
+    def _is_alpha_lookup(self, sc):
+        return any(m["e"] == "mcall" and m["name"] == "get" for m in hirq.walk(sc)) and any(
+            m["e"] == "field" and m.get("name") == "alphas" for m in hirq.walk(sc))
 
     def _final(self, e):
         """value of the function's tail expression"""
@@ -389,7 +436,9 @@ def sup1(ctx):
         short = path.rsplit("::", 1)[-1]
         slots = _binmod_slot_matches(b)
         if set(slots) != {0, 1}:
-            raise AnchorMissing("%s: the two `if let Some(_) = xs[k]` / match BinMod blocks were not recognised (%s)" % (path, sorted(slots)))
+            if has_alpha:
+                raise AnchorMissing("%s: the two `if let Some(_) = xs[k]` / match BinMod blocks were not recognised (%s)" % (path, sorted(slots)))
+            slots = {0: {"ln": b.line}, 1: {"ln": b.line}}
         for k in (0, 1):
             for sign in (True, False):
                 signs = [None, None]
